@@ -83,6 +83,10 @@ def case_strategy(draw):
         case["history"] = hist
     if draw(st.integers(0, 2)) == 0:
         case["sibling"] = {"t": draw(transfer(cfg, allow_none=False)), "pre": draw(st.integers(1, 12)), "every": draw(st.integers(1, 3))}
+        if draw(st.booleans()):
+            # the sibling entities have their own fault-handler tables
+            case["sibling"]["fh_dst"] = draw(st.sampled_from([{"FILE_CHECKSUM_FAILURE": "CANCEL"}, {"CHECK_LIMIT_REACHED": "ABANDON"}, {"NAK_LIMIT_REACHED": "IGNORE"}, {"FILE_SIZE_ERROR": "IGNORE"}]))
+            case["sibling"]["fh_src"] = draw(st.sampled_from([{}, {"POSITIVE_ACK_LIMIT_REACHED": "ABANDON"}, {"CHECK_LIMIT_REACHED": "IGNORE"}]))
     return case
 
 
@@ -166,6 +170,11 @@ def evaluate(case):
     cfg = sim.norm_cfg(case["cfg"])
     sim.install_clock()
     sim.workaround_shared_tracker()  # only here: undo leftovers of earlier *cases* (see LEVEL_NOTE)
+    pol = sim.fault_table_isolation_probe()
+    if pol is not None:
+        # configuration given to one fault handler object (an earlier transaction's or a sibling's entity) shows up in a
+        # newly constructed one: process-wide state. The probe is self-contained and restores the defaults.
+        return Result([verdict("no-process-wide-state", "C11/fault-handler-table-shared-between-instances", pol)], True, ["table-shared"], {})
     vs = []
     classes = []
     nt = False
@@ -218,7 +227,10 @@ def evaluate(case):
     sib = case.get("sibling")
     if sib is not None and not vs:
         sim.CLOCK.reset()
-        sb = sim.Sim(_tcase(cfg, sib["t"]), name="c11s", keep_tracker=True)
+        scfg = dict(cfg)
+        if "fh_dst" in sib:
+            scfg["fh_dst"], scfg["fh_src"] = sib["fh_dst"], sib["fh_src"]
+        sb = sim.Sim(_tcase(scfg, sib["t"]), name="c11s", keep_tracker=True)
         sb.put()
         for i in range(sib["pre"]):
             sb.step("src" if i % 2 == 0 else "dst")
@@ -241,6 +253,7 @@ def evaluate(case):
         c.close()
         sb.close()
         classes.append("sibling-compared")
+
         if mid:
             nt = True
             classes.append("sibling-mid-transaction")
